@@ -42,10 +42,11 @@ def run(cx, chk):
     chk.rule("C01.R6", "resize(n) makes n the enforced bound: self.cap := n on every path but the cap-unchanged early return, after evicting down to n")
     chk.rule("C01.R5", "observer agreement: len/contains/peek*/get* consult the same lists; is_empty/purge/remove touch all retained lists; len is their plain sum")
     chk.rule("C01.R7", "the bounds of a clone are the bounds of the original: every usize field of a cache's Clone impl comes from the same field of self")
-    chk.rule("C01.R8", "configuration integrity: builder methods never cross-wire fields (a size/ratio/hasher kept from the old builder stays in its own field)")
+    chk.rule("C01.R8", "configuration integrity: builder methods never cross-wire fields (a size/ratio/hasher kept from the old builder stays in its own field), and a value named after one segment is never passed / stored for another segment of the same family")
     for cfg, F in cx.cfgs():
         chk.floor("C01.R7", "Clone impls of cache types in %s" % cfg, composite.clone_bounds(cx, chk, cfg, F, "C01.R7"), 3)
         chk.floor("C01.R8", "builder methods in %s" % cfg, composite.builder_setters(cx, chk, cfg, F, "C01.R8"), 12)
+        chk.floor("C01.R8", "segment-named arguments / fields in %s" % cfg, composite.role_wiring(cx, chk, cfg, F, "C01.R8"), 20)
         r1_r3(cx, chk, cfg, F)
         r4(cx, chk, cfg, F)
         r5(cx, chk, cfg, F)
